@@ -4,6 +4,7 @@ def b_XMLFileWriter_add_all_planning_problems_from_planning_problem_set : CR.Src
   kind := .fill
   tag := ""
   xsd := "/commonRoad"
+  path := []
   parent := ""
   attrs := []
   gattrs := []
